@@ -101,19 +101,20 @@ def _bad(tab, dm):
     return l[(_bad_ctr[0] - 1) % len(l)]
 
 
-def r_i(e, dm):
+def r_i(e, dm, syntax_only=False):
     if e == 'bad':
-        return _bad(BAD_I, dm)
+        # inside a condition only a syntax error fails for sure (a run-time fault may sit behind a short-circuit)
+        return ')(' if syntax_only else _bad(BAD_I, dm)
     if e[0] == 'n':
         return str(e[1]) if e[1] >= 0 else '(0 - %d)' % (-e[1])
     if e[0] == 'v':
         return 'Var%d' % e[1]
-    return '(%s %s %s)' % (r_i(e[1], dm), e[0], r_i(e[2], dm))
+    return '(%s %s %s)' % (r_i(e[1], dm, syntax_only), e[0], r_i(e[2], dm, syntax_only))
 
 
 def r_b(e, dm):
     if e == 'bad':
-        return _bad(BAD_B, dm)
+        return ')('
     if e == 'true':
         return 'true'
     if e == 'false':
@@ -121,7 +122,7 @@ def r_b(e, dm):
     if e[0] == 'in':
         return ("config[s%d]" % e[1]) if dm == 'promela' else ("In('s%d')" % e[1])
     if e[0] == '<':
-        return '(%s &lt; %s)' % (r_i(e[1], dm), r_i(e[2], dm))
+        return '(%s &lt; %s)' % (r_i(e[1], dm, True), r_i(e[2], dm, True))
     if e[0] == '!':
         return ('!(%s)' if dm == 'promela' else 'not (%s)') % r_b(e[1], dm)
     op = {'&': ('&amp;&amp;', 'and'), '|': ('||', 'or')}[e[0]][0 if dm == 'promela' else 1]
